@@ -46,10 +46,10 @@ class Sym:
     """symbolic object: identity + named fields; method calls go to the client's hook"""
     _n = 0
 
-    def __init__(self, name: str, _open: bool = False, _cls=None, **fields):
+    def __init__(self, name_: str, /, _open: bool = False, _cls=None, **fields):
         Sym._n += 1
         self.uid = Sym._n
-        self.name = name
+        self.name = name_
         self.fields = dict(fields)
         self.open = _open      # unknown attributes / subscripts yield child terms named by their access path
         self.cls = _cls        # ClassInfo when the object is an instance of a project class
@@ -235,7 +235,8 @@ class MiniInterp:
             self.block(st.body if self.truth(self.ev(st.test, env, fi)) else st.orelse, env, fi)
             return
         if isinstance(st, ast.For):
-            it = self.iterate(self.ev(st.iter, env, fi))
+            src = self.ev(st.iter, env, fi)
+            it = src.lazy() if isinstance(src, LazyIter) else self.iterate(src)
             broke = False
             for x in it:
                 self.tick()
@@ -435,7 +436,7 @@ class MiniInterp:
             return list(v)
         if isinstance(v, dict):
             return list(v.keys())
-        if isinstance(v, _Iter):
+        if isinstance(v, (_Iter, LazyIter)):
             return v.rest()
         if isinstance(v, ISet):
             return list(v.xs)
@@ -452,6 +453,10 @@ class MiniInterp:
             if isinstance(op, ast.Sub):
                 return self.iset_method(a, "difference", [b], node)
             raise Unknown("operator on sets")
+        if self.hook and isinstance(op, ast.Div) and not all(isinstance(x, (int, float, Sym, Lin)) for x in (a, b)):
+            r = self.hook(self, "binop_div", a, b, None, node, None)
+            if r is not NotImplemented:
+                return r
         if isinstance(a, (Sym, Lin)) or isinstance(b, (Sym, Lin)):
             if isinstance(op, (ast.Add, ast.Sub)):
                 return Lin.of(a).add(Lin.of(b), 1 if isinstance(op, ast.Add) else -1).simplify()
@@ -593,6 +598,10 @@ class MiniInterp:
                 def plain(v):
                     return isinstance(v, (int, float, str, bool, type(None))) or (isinstance(v, (list, tuple)) and all(plain(y) for y in v)) or \
                         (isinstance(v, dict) and all(plain(k) and plain(y) for k, y in v.items()))
+                if not plain(x) and self.hook:
+                    r = self.hook(self, "call", ("builtin", "str"), [x], {}, n, fi)
+                    if isinstance(r, str):
+                        x = r
                 if plain(x):
                     try:
                         if v.conversion == ord("r"):
@@ -663,6 +672,10 @@ class MiniInterp:
                                                   or isinstance(a, ISet) or isinstance(b, ISet)):
             r = self.equal(a, b)
             return r if isinstance(op, ast.Eq) else not r
+        if self.hook and isinstance(op, ast.Div) and not all(isinstance(x, (int, float, Sym, Lin)) for x in (a, b)):
+            r = self.hook(self, "binop_div", a, b, None, node, None)
+            if r is not NotImplemented:
+                return r
         if isinstance(a, (Sym, Lin)) or isinstance(b, (Sym, Lin)):
             if isinstance(op, (ast.Add, ast.Sub)):
                 return Lin.of(a).add(Lin.of(b), 1 if isinstance(op, ast.Add) else -1).simplify()
@@ -804,6 +817,10 @@ class MiniInterp:
                 def plain(v):
                     return isinstance(v, (int, float, str, bool, type(None))) or (isinstance(v, (list, tuple)) and all(plain(y) for y in v)) or \
                         (isinstance(v, dict) and all(plain(k) and plain(y) for k, y in v.items()))
+                if not plain(x) and self.hook:
+                    r = self.hook(self, "call", ("builtin", "str"), [x], {}, n, fi)
+                    if isinstance(r, str):
+                        x = r
                 if plain(x):
                     try:
                         if v.conversion == ord("r"):
@@ -927,6 +944,10 @@ class MiniInterp:
             raise Unknown(f"module attribute {attr}")
         if isinstance(obj, tuple) and obj and obj[0] == "class":
             ci = obj[1]
+            if self.hook:
+                r = self.hook(self, "getattr", obj, attr, None, node, fi)
+                if r is not NotImplemented:
+                    return r
             m = ci.find_method(attr)
             if m is not None:
                 return BoundFunc(m, None)
@@ -1353,6 +1374,19 @@ class MiniInterp:
         if r is NotImplemented:
             raise Unknown("callable")
         return r
+
+
+class LazyIter:
+    """an iterator whose next element is computed when asked for (os.walk: the consumer prunes the yielded list)"""
+
+    def __init__(self, gen):
+        self.gen = gen
+
+    def lazy(self):
+        return self.gen
+
+    def rest(self):
+        return list(self.gen)
 
 
 class _Iter:
